@@ -605,6 +605,521 @@ def applyOps (spec : Val) (now : Val) (wasInsert : Bool) (whole : Fields) :
       else if first then replaceWhole whole d
       else .error .valueErr
 
+/-! ### the positional operator `$`
+
+`{'$set': {'arr.$.x': 1}}` with a filter that matched an array element.  The code has TWO
+resolutions of the `$` component:
+
+* the `_updaters` (`$set $unset $inc $max $min $pop`, and `$setOnInsert`, `$currentDate`) go through
+  `_update_document_fields_positional` as soon as ONE key of the operator's document contains the
+  character `$`: the walk narrows the filter to the conditions whose key STARTS WITH the component
+  (`narrowSpec`), and at a `$` component takes the first item of the value in view that satisfies
+  `subspec.get('$elemMatch', subspec)` — no match leaves the value in view where it is; the
+  container reached is kept in the variable `subdocument`, which `_apply_update` hands on to the
+  next key and the next operator: while it is truthy NO walk is made and the updater is applied to
+  it (`SubRef`);
+* `$push`, `$addToSet`, `$pullAll`, `$pull` go through `_get_subdocument`, which follows the filter
+  by exact keys and wants an `$elemMatch` there (`withSubdocPos`).
+
+Outside F (`unmodelled`): a key whose first component is `$` or that has one component only; a
+carried container used by a key that starts with another top-level field (the first `$push` of an
+update makes the document itself the carried container) or after a non-positional write under the
+same top-level field; containers carried over from `$push`/`$addToSet`/`$pullAll`/`$pull`; any
+further key of an operator document behind `f.$` on a non-empty array (the code rebinds its `doc`
+variable there); two `$` components in a `$push`/`$addToSet`/`$pullAll`/`$pull` path; a `$` of
+these operators that meets a sub-document or a string; a filter narrowed to a string or an array. -/
+
+/-- one resolved step inside a value: a key of a sub-document or an index of an array -/
+inductive PStep where
+  | key (k : String)
+  | idx (i : Nat)
+  deriving Repr, DecidableEq
+
+def valAt : List PStep → Val → Option Val
+  | [], v => some v
+  | .key k :: r, .doc fs =>
+    (match dget k fs with
+     | some sub => valAt r sub
+     | none => none)
+  | .idx i :: r, .arr xs =>
+    (match xs[i]? with
+     | some sub => valAt r sub
+     | none => none)
+  | _ :: _, _ => none
+
+/-- edit the container a resolved path leads to -/
+def editAt (f : Val → R Val) : List PStep → Val → R Val
+  | [], d => f d
+  | .key k :: r, .doc fs =>
+    (match dget k fs with
+     | some sub => do
+       let sub' ← editAt f r sub
+       pure (.doc (dset k sub' fs))
+     | none => unmodelled)
+  | .idx i :: r, .arr xs =>
+    (match xs[i]? with
+     | some sub => do
+       let sub' ← editAt f r sub
+       pure (.arr (xs.set i sub'))
+     | none => unmodelled)
+  | _ :: _, _ => unmodelled
+
+/-- edit the value of the top-level field `h` of a document (the field must be there) -/
+def editTop (h : String) (f : Val → R Val) (d : Val) : R Val :=
+  match d with
+  | .doc fs =>
+    (match dget h fs with
+     | some top => do
+       let top' ← f top
+       pure (.doc (dset h top' fs))
+     | none => unmodelled)
+  | _ => unmodelled
+
+/-- the variable `subdocument` of `_apply_update` -/
+inductive SubRef where
+  | nil                                   -- `None`
+  | inside (h : String) (p : List PStep)   -- the container at `p` inside the top-level field `h`
+  | gone (v : Val)                        -- a value that is no part of the document (a key or a
+                                          -- character met while iterating)
+  | untracked                             -- a container the model does not follow
+  deriving Repr
+
+/-- `bool(subdocument)` -/
+def SubRef.truthy (s : SubRef) (d : Val) : R Bool :=
+  match s, d with
+  | .nil, _ => .ok false
+  | .inside h p, .doc fs =>
+    (match dget h fs with
+     | some top =>
+       (match valAt p top with
+        | some v => .ok v.truthy
+        | none => unmodelled)
+     | none => unmodelled)
+  | .inside _ _, _ => unmodelled
+  | .gone v, _ => .ok v.truthy
+  | .untracked, _ => unmodelled
+
+/-- a write under the top-level field `h` that does not go through the carried container may
+    detach or move it: the model stops following it -/
+def SubRef.staleIf (h : String) (s : SubRef) : SubRef :=
+  match s with
+  | .inside h' p => if h' = h then .untracked else .inside h' p
+  | s => s
+
+/-- `for item in value` -/
+def iterItems : Val → R (List Val)
+  | .arr xs => .ok xs
+  | .doc fs => .ok ((dkeys fs).map Val.str)
+  | .str s => .ok (charsOf s)
+  | _ => .error .typeErr
+
+/-- index and value of the first item `filter_applies(cond, item)` holds for -/
+def firstApplying (cond : Val) : List Val → Nat → R (Option (Nat × Val))
+  | [], _ => .ok none
+  | x :: r, i => do
+    if (← filterApplies cond x) then pure (some (i, x)) else firstApplying cond r (i + 1)
+
+/-- `subspec.get('$elemMatch', subspec)` -/
+def dollarCond (ss : Fields) : Val := (dget "$elemMatch" ss).getD (.doc ss)
+
+/-- the filter narrowed to one path component: `new_spec = {}; for el in subspec: if
+    el.startswith(part): …` — a dotted key gives its remainder, an undotted one REPLACES what was
+    collected so far (and a dotted one after that raises TypeError unless that is a document) -/
+def narrowSpec (part : String) (ss : Fields) : R Val :=
+  ss.foldlM (fun acc kv =>
+    if kv.1.startsWith part then
+      match splitDots kv.1 with
+      | _ :: q :: r =>
+        (match acc with
+         | .doc ns => pure (.doc (dset (joinDots (q :: r)) kv.2 ns))
+         | _ => .error .typeErr)
+      | _ => pure kv.2
+    else pure acc) (.doc [])
+
+/-- the walk of `_update_document_fields_positional` over `field_name_parts[:-1]` (behind the first
+    component): value in view, filter in view, and where the value sits (`none`: nowhere in the
+    document) -/
+def posWalk : List String → Val → Val → Option (List PStep) → R (Val × Val × Option (List PStep))
+  | [], cur, subspec, path => .ok (cur, subspec, path)
+  | part :: rest, cur, subspec, path =>
+    if part = "$" then
+      match subspec with
+      | .doc ss => do
+        let items ← iterItems cur
+        match ← firstApplying (dollarCond ss) items 0 with
+        | some (i, item) =>
+          let path' := match cur, path with
+            | .arr _, some p => some (p ++ [PStep.idx i])
+            | _, _ => none
+          posWalk rest item subspec path'
+        | none => posWalk rest cur subspec path
+      | _ => .error .attrErr
+    else
+      match subspec with
+      | .doc ss => do
+        let newSpec ← narrowSpec part ss
+        match cur with
+        | .doc fs =>
+          (match dget part fs with
+           | some sub => posWalk rest sub newSpec (path.map (· ++ [PStep.key part]))
+           | none => .error .keyErr)
+        | _ => .error .typeErr
+      | .str _ | .arr _ => unmodelled
+      | _ => .error .typeErr
+
+/-- `updater(subdocument, field, value)` on the carried container -/
+def applyAtSub (u : Updater) (now : Val) (sub : SubRef) (last : String) (v : Val) (d : Val) : R Val :=
+  match sub with
+  | .inside h p => editTop h (editAt (fun c => runUpdater u now c last v) p) d
+  | .gone c => do
+    let _ ← runUpdater u now c last v
+    pure d
+  | _ => unmodelled
+
+/-- `subdocument[i] = v` -/
+def setItemAt (i : Nat) (v : Val) (c : Val) : R Val :=
+  match c with
+  | .arr ys => .ok (.arr (ys.set i v))
+  | _ => unmodelled
+
+structure PosState where
+  d : Val
+  sub : SubRef
+  docLost : Bool        -- the loop variable `doc` no longer names the document (see above)
+
+def lastPart (parts : List String) : String := parts.getLast?.getD ""
+
+/-- one key of the operator's document in `_update_document_fields_positional` -/
+def posUpdaterKey (u : Updater) (now spec : Val) (st : PosState) (k : String) (v : Val) : R PosState :=
+  if st.docLost then unmodelled
+  else if !keyOk k then unmodelled
+  else if !hasDollarPart k then do
+    let d' ← updateSingleField u now v (splitDots k) st.d
+    pure { st with d := d', sub := st.sub.staleIf ((splitDots k).headD "") }
+  else
+    match splitDots k with
+    | head :: p2 :: more =>
+      if head = "$" then unmodelled
+      else do
+        let mid := (p2 :: more).dropLast
+        let last := lastPart (p2 :: more)
+        if (← st.sub.truthy st.d) then
+          -- the carried container: no walk
+          match st.sub with
+          | .inside h _ =>
+            if h = head then do
+              let d' ← applyAtSub u now st.sub last v st.d
+              pure { st with d := d' }
+            else unmodelled
+          | .gone _ => do
+            let d' ← applyAtSub u now st.sub last v st.d
+            pure { st with d := d' }
+          | _ => unmodelled
+        else
+          match st.d, spec with
+          | .doc fs, .doc ss => do
+            let newSpec ← narrowSpec head ss
+            match dget head fs with
+            | none => .error .keyErr
+            | some top => do
+              let (cur, subspec, path) ← posWalk mid top newSpec (some [])
+              let sub' := match path with
+                | some p => SubRef.inside head p
+                | none => SubRef.gone cur
+              match last == "$", cur with
+              | true, .arr xs =>
+                if xs.isEmpty then pure { st with sub := sub' }
+                else
+                  (match subspec with
+                   | .doc cs => do
+                     match ← firstApplying (dollarCond cs) xs 0 with
+                     | some (i, _) => do
+                       let d' ← (match path with
+                         | some p => editTop head (editAt (setItemAt i v) p) st.d
+                         | none => pure st.d)
+                       pure { d := d', sub := sub', docLost := true }
+                     | none => pure { st with sub := sub', docLost := true }
+                   | _ => .error .attrErr)
+              | _, _ => do
+                let d' ← applyAtSub u now sub' last v st.d
+                pure { st with d := d', sub := sub' }
+          | _, _ => unmodelled
+    | _ => unmodelled
+
+/-- `_update_document_fields_with_positional_awareness(existing_document, v, spec, updater,
+    subdocument)`: the document and the new `subdocument` -/
+def posFields (u : Updater) (now spec : Val) (v : Val) (d : Val) (sub : SubRef) : R (Val × SubRef) :=
+  match v with
+  | .doc fs =>
+    if fs.any (fun kv => hasDollarPart kv.1) then do
+      let st ← fs.foldlM (fun st kv => posUpdaterKey u now spec st kv.1 kv.2) ⟨d, sub, false⟩
+      pure (st.d, st.sub)
+    else do
+      let d' ← updateFields u now v d
+      pure (d', fs.foldl (fun s kv => s.staleIf ((splitDots kv.1).headD "")) sub)
+  | _ => .error .attrErr
+
+/-- `_get_subdocument` with ONE `$` component: up to the `$` like `withSubdoc`; there the filter
+    followed so far must hold an `$elemMatch`, the first item satisfying it is entered by its
+    index, and the rest of the walk no longer follows the filter -/
+def withSubdocPos (f : Val → String → R Val) (create : Bool) :
+    List String → Bool → Val → Val → R Val
+  | [], _, _, d => .ok d
+  | part :: rest, following, subspec, d =>
+    if part = "$" then
+      if !following then .error .writeErr
+      else
+        match subspec with
+        | .doc ss =>
+          (match dget "$elemMatch" ss with
+           | none => .error .keyErr
+           | some cond =>
+             (match d with
+              | .arr xs => do
+                match ← firstApplying cond xs 0 with
+                | none => .error .writeErr
+                | some (i, _) => withSubdoc f create (toString i :: rest) false .null d
+              | .doc _ | .str _ => unmodelled
+              | _ => .error .typeErr))
+        | _ => .error .typeErr
+    else
+      match rest with
+      | [] => withSubdoc f create [part] following subspec d
+      | _ :: _ =>
+        match d with
+        | .arr xs =>
+          if following then unmodelled
+          else match pyInt? part with
+            | none => .error .valueErr
+            | some i =>
+              if i < 0 then unmodelled
+              else match xs[i.toNat]? with
+                | none => .error .indexErr
+                | some sub => do
+                  let sub' ← withSubdocPos f create rest false .null sub
+                  pure (.arr (xs.set i.toNat sub'))
+        | .doc fs =>
+          if !create && (dget part fs).isNone then .ok d
+          else
+          let sub := (dget part fs).getD (.doc [])
+          let (following', subspec', bad) :=
+            if !following then (false, Val.null, false)
+            else match subspec with
+              | .doc ss => (match dget part ss with
+                | some s' => (true, s', false)
+                | none => (false, Val.null, false))
+              | _ => (false, Val.null, true)
+          if bad then unmodelled
+          else do
+            let sub' ← withSubdocPos f create rest following' subspec' sub
+            pure (.doc (dset part sub' fs))
+        | .str s =>
+          if !create && !isInfixChars part.toList s.toList then .ok d else .error .typeErr
+        | _ => .error .typeErr
+
+/-- the path has exactly one `$` component, not the first one, and no empty component -/
+def onePositional (field : String) : Bool :=
+  let parts := splitDots field
+  keyOk field && parts.count "$" == 1 && parts.headD "" != "$"
+
+/-- the `$addToSet` edit at the container `_get_subdocument` returns -/
+def addToSetAt (value : Val) (parent : Val) (last : String) : R Val :=
+  match parent with
+  | .doc ps => do
+    let cur := (dget last ps).getD (.arr [])
+    let r ← addToSetValue cur value
+    pure (.doc (dset last r ps))
+  | .arr _ => unmodelled
+  | .str p =>
+    if isInfixChars last.toList p.toList then .error .typeErr
+    else do
+      let _ ← addToSetValue (.arr []) value
+      .error .typeErr
+  | _ => .error .typeErr
+
+def addToSetFieldPos (spec : Val) (d : Val) (field : String) (value : Val) : R Val :=
+  let parts := splitDots field
+  if !parts.contains "$" then addToSetField spec d field value
+  else if !onePositional field then unmodelled
+  else if !docsAlong (parts.takeWhile (· != "$") ++ ["$"]) d then .error .typeErr
+  else withSubdocPos (addToSetAt value) true parts true spec d
+
+def pullAllAt (value : Val) (parent : Val) (last : String) : R Val :=
+  match parent with
+  | .doc ps =>
+    (match dget last ps with
+     | some cur => do
+       let r ← pullAllValue cur value
+       pure (.doc (dset last r ps))
+     | none => .ok parent)
+  | .arr _ => unmodelled
+  | .str p => if isInfixChars last.toList p.toList then .error .typeErr else .ok parent
+  | .null => .ok parent
+  | _ => .error .typeErr
+
+def pullAllFieldPos (spec : Val) (d : Val) (field : String) (value : Val) : R Val :=
+  let parts := splitDots field
+  if !parts.contains "$" then pullAllField spec d field value
+  else if !onePositional field then unmodelled
+  else withSubdocPos (pullAllAt value) false parts true spec d
+
+def pushAt (value : Val) (parent : Val) (last : String) : R Val :=
+  match parent with
+  | .doc ps => do
+    let cur := (dget last ps).getD (.arr [])
+    let r ← pushValue cur value
+    pure (.doc (dset last r ps))
+  | .arr xs =>
+    (match pyInt? last with
+     | some i =>
+       if i < 0 then unmodelled
+       else match xs[i.toNat]? with
+         | none => .error .indexErr
+         | some cur => do
+           let r ← pushValue cur value
+           pure (.arr (xs.set i.toNat r))
+     | none => .error .valueErr)
+  | _ => .error .typeErr
+
+def pushFieldPos (spec : Val) (d : Val) (field : String) (value : Val) : R Val :=
+  let parts := splitDots field
+  if !parts.contains "$" then pushField spec d field value
+  else if !onePositional field then unmodelled
+  else withSubdocPos (pushAt value) true parts true spec d
+
+/-- the positional `$pull`: `for obj in subdocument[last]: …` keeps a sub-document once for every
+    `pull_key` whose value differs (KeyError when it lacks the key), anything else when it differs
+    from the operand -/
+def pullPosList (value : Val) (xs : List Val) : R (List Val) :=
+  xs.foldlM (fun acc obj =>
+    match obj with
+    | .doc os =>
+      (match value with
+       | .doc vs => vs.foldlM (fun acc' kv =>
+           match dget kv.1 os with
+           | none => .error .keyErr
+           | some w => pure (if pyEq w kv.2 then acc' else acc' ++ [obj])) acc
+       | _ => .error .attrErr)
+    | _ => pure (if pyEq obj value then acc else acc ++ [obj])) []
+
+/-- `subdocument[nested_field_list[-1]] = pull_results` (`last` is the LAST COMPONENT AS WRITTEN:
+    `$` is no index here) -/
+def pullPosAt (value : Val) (last : String) (parent : Val) : R Val :=
+  match parent with
+  | .doc ps =>
+    (match dget last ps with
+     | none => .error .keyErr
+     | some (.arr xs) => do
+       let r ← pullPosList value xs
+       pure (.doc (dset last (.arr r) ps))
+     | some (.doc _) | some (.str _) => unmodelled
+     | some _ => .error .typeErr)
+  | _ => .error .typeErr
+
+def pullFieldPos (spec : Val) (sub : SubRef) (d : Val) (field : String) (value : Val) :
+    R (Val × SubRef) :=
+  let parts := splitDots field
+  if !parts.contains "$" then do
+    let d' ← pullField d field value
+    pure (d', sub.staleIf (parts.headD ""))
+  else if !keyOk field || parts.headD "" == "$" then unmodelled
+  else do
+    let last := lastPart parts
+    if (← sub.truthy d) then
+      match sub with
+      | .inside h p =>
+        if h = parts.headD "" then do
+          let d' ← editTop h (editAt (pullPosAt value last) p) d
+          pure (d', sub)
+        else unmodelled
+      | .gone c => do
+        let _ ← pullPosAt value last c
+        pure (d, sub)
+      | _ => unmodelled
+    else if !onePositional field then unmodelled
+    else do
+      let d' ← withSubdocPos (fun parent _ => pullPosAt value last parent) true parts true spec d
+      pure (d', .untracked)
+
+/-- `for field, value in v.items()` with the carried container -/
+def eachFieldS (v : Val) (d : Val) (sub : SubRef)
+    (f : Val → SubRef → String → Val → R (Val × SubRef)) : R (Val × SubRef) :=
+  match v with
+  | .doc fs => fs.foldlM (fun acc kv => f acc.1 acc.2 kv.1 kv.2) (d, sub)
+  | _ => .error .attrErr
+
+/-- what `$rename` does to the carried container: not followed under the two names -/
+def renameStale (v : Val) (sub : SubRef) : SubRef :=
+  match v with
+  | .doc fs => fs.foldl (fun s kv =>
+      let s1 := s.staleIf kv.1
+      match kv.2 with
+      | .str dst => s1.staleIf dst
+      | _ => s1) sub
+  | _ => sub
+
+/-- the `subdocument` an in-line array operator leaves: a top-level `$addToSet` / `$pullAll` does
+    not assign it; everything else assigns the container it worked on -/
+def subAfterArrayOp (assignsAlways : Bool) (field : String) (sub : SubRef) : SubRef :=
+  match splitDots field with
+  | [f] => if assignsAlways then .untracked else sub.staleIf f
+  | _ => .untracked
+
+/-- the operator loop of `_apply_update` for an update with a positional key: as `applyOps`, with
+    the variable `subdocument` handed from operator to operator -/
+def applyOpsPos (spec : Val) (now : Val) (wasInsert : Bool) (whole : Fields) :
+    Fields → Bool → SubRef → Val → R Val
+  | [], _, _, d => .ok d
+  | (k, v) :: rest, first, sub, d =>
+    match updaterOf k with
+    | some u => do
+      let (d', sub') ← posFields u now spec v d sub
+      applyOpsPos spec now wasInsert whole rest false sub' d'
+    | none =>
+      if k = "$rename" then do
+        let d' ← renameFields v d
+        applyOpsPos spec now wasInsert whole rest false (renameStale v sub) d'
+      else if k = "$setOnInsert" then
+        if !wasInsert then applyOpsPos spec now wasInsert whole rest first sub d
+        else do
+          let (d', sub') ← posFields .set now spec v d sub
+          applyOpsPos spec now wasInsert whole rest false sub' d'
+      else if k = "$currentDate" then do
+        let (d', sub') ← posFields .currentDate now spec v d sub
+        applyOpsPos spec now wasInsert whole rest false sub' d'
+      else if k = "$addToSet" then do
+        let (d', sub') ← eachFieldS v d sub (fun d s field value => do
+          let d' ← addToSetFieldPos spec d field value
+          pure (d', subAfterArrayOp false field s))
+        applyOpsPos spec now wasInsert whole rest false sub' d'
+      else if k = "$pull" then do
+        let (d', sub') ← eachFieldS v d sub (fun d s field value => pullFieldPos spec s d field value)
+        applyOpsPos spec now wasInsert whole rest false sub' d'
+      else if k = "$pullAll" then do
+        let (d', sub') ← eachFieldS v d sub (fun d s field value => do
+          let d' ← pullAllFieldPos spec d field value
+          pure (d', subAfterArrayOp false field s))
+        applyOpsPos spec now wasInsert whole rest false sub' d'
+      else if k = "$push" then do
+        let (d', sub') ← eachFieldS v d sub (fun d s field value => do
+          let d' ← pushFieldPos spec d field value
+          pure (d', subAfterArrayOp true field s))
+        applyOpsPos spec now wasInsert whole rest false sub' d'
+      else if first then replaceWhole whole d
+      else .error .valueErr
+
+/-- the operators whose paths may hold a `$` -/
+def positionalOperators : List String :=
+  ["$set", "$unset", "$inc", "$max", "$min", "$pop", "$setOnInsert", "$currentDate",
+   "$addToSet", "$pull", "$pullAll", "$push"]
+
+/-- some operator's document has a key with a `$` in it: the update goes through `applyOpsPos` -/
+def positionalUpdate (fs : Fields) : Bool :=
+  fs.any (fun kv => positionalOperators.contains kv.1 &&
+    (match kv.2 with
+     | .doc body => body.any (fun fv => hasDollarPart fv.1)
+     | _ => false))
+
 /-- the per-document part of `_apply_update`: operators, then the empty-document branch -/
 def applyUpdate (spec : Val) (document : Val) (now : Val) (wasInsert : Bool) (existing : Val) :
     R Val :=
@@ -616,7 +1131,9 @@ def applyUpdate (spec : Val) (document : Val) (now : Val) (wasInsert : Bool) (ex
         | some x => .ok (.doc [("_id", x)])
         | none => .ok (.doc []))
      | _ => unmodelled)
-  | .doc fs => applyOps spec now wasInsert fs fs true existing
+  | .doc fs =>
+    if positionalUpdate fs then applyOpsPos spec now wasInsert fs fs true .nil existing
+    else applyOps spec now wasInsert fs fs true existing
   | _ => .error .typeErr
 
 /-! ### `_validate_update_operators`: the operators of an update, checked before any document is
